@@ -1,3 +1,5 @@
+pub mod c09;
+pub mod c10;
 pub mod c16;
 
 #[derive(Clone, Debug)]
